@@ -14,7 +14,7 @@ MINIMUMS = (2000, 300)
 NOW = core.PINNED_NOW
 BRANCHES = ["main", "master", "develop", "developx", "develop/1", "release/3", "release/3/fix", "release/x", "release/x/12", "release/007",
             "release/4294967296", "release", "releasex/3", "release-3", "feature/login", "feature/42/login", "feature/x-9", "hotfix/7",
-            "12", "a/b/c/5", "dev", "x", "Feature/UPPER", "user/joe/fix-1", "release//3", "rc/1", "bugfix/ISSUE-42", "wip_2", "a", "d", "f", "b", "c", "e", "g"]
+            "12", "a/b/c/5", "release/+5", "feature/+42/login", "+3", "release/-3", "release/5x/6", "release/x5/6", "feature/٣/4", "release/4294967296/5", "release/0/1", "dev", "x", "Feature/UPPER", "user/joe/fix-1", "release//3", "rc/1", "bugfix/ISSUE-42", "wip_2", "a", "d", "f", "b", "c", "e", "g"]
 
 
 def rand_branch(rng):
